@@ -47,12 +47,12 @@ func (d Dir) String() string {
 type FaultKind int
 
 const (
-	FaultNone      FaultKind = iota
-	FaultAbrupt              // connection lost: every pending and later operation on both ends fails with an idle-timeout error
-	FaultCloseByA            // A end closes the connection with code 0 (B sees "remote", A sees "local")
-	FaultCloseByB            // B end closes the connection with code 0
-	FaultFlipBit             // one bit of the byte at the offset is inverted in flight
-	FaultTruncate            // the stream direction ends (FIN) at the offset; later bytes are discarded
+	FaultNone     FaultKind = iota
+	FaultAbrupt             // connection lost: every pending and later operation on both ends fails with an idle-timeout error
+	FaultCloseByA           // A end closes the connection with code 0 (B sees "remote", A sees "local")
+	FaultCloseByB           // B end closes the connection with code 0
+	FaultFlipBit            // one bit of the byte at the offset is inverted in flight
+	FaultTruncate           // the stream direction ends (FIN) at the offset; later bytes are discarded
 )
 
 func (k FaultKind) String() string {
@@ -173,7 +173,7 @@ type memShared struct {
 type memHalfPair struct {
 	id       uint64
 	ordinal  int
-	opener   int // 0 = A, 1 = B
+	opener   int          // 0 = A, 1 = B
 	q        [2]*memQueue // q[AtoB], q[BtoA]
 	visible  bool
 	accepted bool
@@ -268,7 +268,9 @@ func (c *MemConn) Dead() bool {
 }
 
 // RemoteAddr returns a dummy address.
-func (c *MemConn) RemoteAddr() net.Addr { return &net.UDPAddr{IP: net.IPv4(127, 0, 0, 1), Port: 1 + c.side} }
+func (c *MemConn) RemoteAddr() net.Addr {
+	return &net.UDPAddr{IP: net.IPv4(127, 0, 0, 1), Port: 1 + c.side}
+}
 
 // Progress returns bytes moved so far and the time of the last movement (idle detection).
 func (c *MemConn) Progress() (int64, time.Time) {
